@@ -3,6 +3,7 @@ package gen
 import (
 	"fmt"
 	"math/rand"
+	"strings"
 	"time"
 
 	"bwverif/bq"
@@ -451,4 +452,100 @@ func ConstructStmtMatching(rng *rand.Rand, kind string, data []*triple.Triple) *
 		}
 	}
 	return s
+}
+
+// IllTypedConstruct draws a CONSTRUCT / DECONSTRUCT whose WHERE pattern is
+// built from stored triples (so it has solutions) and whose templates are well
+// typed except for exactly one slot — subject, predicate, anchor or object of
+// the first or of a later (';') pair — that holds a binding of a kind that
+// cannot stand there, so that the statement fails while rows are being
+// instantiated, after the background writer has been started.
+func IllTypedConstruct(rng *rand.Rand, kind string, data []*triple.Triple) *bq.Stmt {
+	var s *bq.Stmt
+	for tries := 0; tries < 30; tries++ {
+		s = ConstructStmtMatching(rng, kind, data)
+		kinds := bindingKinds(s.Where)
+		nonNode := bindingsOf(kinds, "pred", "time", "str")
+		nonPred := bindingsOf(kinds, "node", "time", "str")
+		nonTime := bindingsOf(kinds, "node", "pred", "str")
+		anyB := bindingsOf(kinds, "any")
+		nonNode, nonPred, nonTime = append(nonNode, anyB...), append(nonPred, anyB...), append(nonTime, anyB...)
+		if len(nonPred) == 0 || len(nonNode) == 0 || len(nonTime) == 0 {
+			continue
+		}
+		ti := rng.Intn(len(s.Templates))
+		t := &s.Templates[ti]
+		// make room for a later pair now and then
+		if kind == "construct" && len(t.Pairs) < 3 && rng.Intn(2) == 0 {
+			t.Pairs = append(t.Pairs, bq.Pair{P: bq.P(MustImm("c2")), O: bq.N(VNodes[rng.Intn(len(VNodes))])})
+		}
+		pi := rng.Intn(len(t.Pairs))
+		switch rng.Intn(4) {
+		case 0:
+			t.S = bq.B(nonNode[rng.Intn(len(nonNode))])
+		case 1:
+			t.Pairs[pi].P = bq.B(nonPred[rng.Intn(len(nonPred))])
+		case 2:
+			t.Pairs[pi].P = bq.PB("c1", nonTime[rng.Intn(len(nonTime))])
+		default:
+			t.Pairs[pi].O = bq.PB("c3", nonTime[rng.Intn(len(nonTime))])
+		}
+		return s
+	}
+	return s
+}
+
+// MixedAggregateStatements lists SELECT statements that aggregate over columns
+// mixing kinds of values (numeric literals first, then nodes / text /
+// predicates / NULL) on the graphs of MixedNumericData, in both FROM orders.
+func MixedAggregateStatements() []string {
+	var res []string
+	patterns := []string{
+		`{ ?s ?p ?o }`, `{ ?s "p"@[] ?o }`, `{ /u<a> ?p ?o }`, `{ ?s "q"@[] ?o }`,
+		`{ ?s "p"@[] ?o . OPTIONAL { ?s "q"@[] ?x } }`, `{ ?s ?p ?o . OPTIONAL { ?o "q"@[] ?x } }`,
+		`{ ?s "p"@[?t] ?o }`, `{ ?s ?p ?o . ?s "q"@[] ?x }`,
+	}
+	froms := []string{"?gn, ?gm", "?gm, ?gn", "?gn", "?gm"}
+	for _, pat := range patterns {
+		outs := []string{"?o"}
+		if strings.Contains(pat, "?s") {
+			outs = append(outs, "?s")
+		}
+		if strings.Contains(pat, "?p ") {
+			outs = append(outs, "?p")
+		}
+		if strings.Contains(pat, "?x") {
+			outs = append(outs, "?x")
+		}
+		if strings.Contains(pat, "?t") {
+			outs = append(outs, "?t")
+		}
+		for _, agg := range outs {
+			for _, fn := range []string{"sum(%s)", "count(%s)", "count(distinct %s)"} {
+				for _, key := range outs {
+					if key == agg {
+						continue
+					}
+					for _, from := range froms {
+						res = append(res, fmt.Sprintf("SELECT %s, %s AS ?total FROM %s WHERE %s GROUP BY %s;", key, fmt.Sprintf(fn, agg), from, pat, key))
+					}
+				}
+				res = append(res, fmt.Sprintf("SELECT %s AS ?total FROM ?gn, ?gm WHERE %s;", fmt.Sprintf(fn, agg), pat))
+			}
+		}
+	}
+	return res
+}
+
+// MixedNumericData: ?gn holds numeric literals only, ?gm the same subjects and
+// predicates with nodes, text, predicates and more numbers.
+func MixedNumericData() bq.Data {
+	a, b := VNodes[0], VNodes[1]
+	p, q, pt := MustImm("p"), MustImm("q"), MustTemp("p", T1)
+	l := func(i int) *triple.Object { return triple.NewLiteralObject(VLits[i]) }
+	return bq.Data{
+		"?gn": {MustTriple(a, p, l(3)), MustTriple(a, p, l(4)), MustTriple(b, p, l(6)), MustTriple(a, q, l(3)), MustTriple(a, pt, l(1)), MustTriple(b, pt, l(5))},
+		"?gm": {MustTriple(a, p, triple.NewNodeObject(b)), MustTriple(a, p, l(8)), MustTriple(b, p, triple.NewPredicateObject(q)), MustTriple(a, q, l(6)), MustTriple(b, q, triple.NewNodeObject(a)),
+			MustTriple(a, pt, triple.NewNodeObject(a)), MustTriple(b, p, l(11)), MustTriple(b, p, l(0))},
+	}
 }
